@@ -2,6 +2,7 @@ package main
 
 import (
 	"fmt"
+	"go/token"
 	"go/types"
 	"sort"
 	"strings"
@@ -26,7 +27,7 @@ func init() {
 	register(&Prop{
 		ID:         "C19",
 		Title:      "Batch operations equal their item-by-item decomposition",
-		Decided:    "the batch is literally its decomposition: (R1) the per-request dispatcher of BatchWriteItem calls the client's own PutItem with exactly {Item ← PutRequest.Item, TableName ← the request's table} and DeleteItem with exactly {Key ← DeleteRequest.Key, TableName ← table} – no condition or other field – choosing the branch by which request pointer is non-nil; (R2) the input validation dominates the first request and both loops visit every table and every request unconditionally; (R3) the error handler never drops a request (shared with C15.R3); (R4) BatchGetItem issues the client's own GetItem per key with {Key ← the key, TableName ← the table}, a key is reported unprocessed only on the non-nil edge of that call's own error, no error is manufactured from an empty result (absent keys are simply omitted), and results are appended under the table they were requested for; (R5) both clients offer the same batch operations.",
+		Decided:    "the batch is literally its decomposition: (R1) the per-request dispatcher of BatchWriteItem calls the client's own PutItem with exactly {Item ← PutRequest.Item, TableName ← the request's table} and DeleteItem with exactly {Key ← DeleteRequest.Key, TableName ← table} – no condition or other field – choosing the branch by which request pointer is non-nil; (R2) the input validation dominates the first request and both loops visit every table and every request unconditionally; (R3) the error handler never drops a request (shared with C15.R3); (R4) BatchGetItem issues the client's own GetItem per key with {Key ← the key, TableName ← the table}, a key is reported unprocessed only on the non-nil edge of that call's own error, no error is manufactured from an empty result (absent keys are simply omitted), and results are appended under the table they were requested for; (R5) both clients offer the same batch operations; (R6) the lists a batch returns are not built on package-level storage (= C18.R6).",
 		NotDecided: "equality of the resulting table states (follows from R1–R3 together with C01/C08 for the single-item operations); DynamoDB's 16 MB / 100-key limits; order of responses.",
 		Rules: []RuleDef{
 			{ID: "R1", Desc: "dispatcher builds exactly the single-item request (T-FLOW)", Run: c19R1},
@@ -57,6 +58,7 @@ func init() {
 					e.check(in1 == in2, "R5", "Client."+op+":present-in-both", "-", "%s implemented in v1:%v v2:%v", op, in1, in2)
 				}
 			}},
+			{ID: "R6", Desc: "batch results are not built on shared package-level storage (= C18.R6)", Run: aliasRule("R6", c18R6, nil)},
 		},
 	})
 }
@@ -222,7 +224,31 @@ func c19R2(e *Engine) {
 				}
 			})
 		}
-		e.check(reorder == "", "R2", construct+":order-preserved", e.pos(bw.Pos()), "the requests of a table are executed in the order given (reordering call: %q) – a put and a delete of the same key must take effect in sequence", reorder)
+		// … and what is dispatched is an element of the request's own per-table list, visited in place: a loop over a
+		// rebuilt list (deletes first, de-duplicated, grouped) is a different order or a different multiset
+		reqArg := dispatch.Call.Args[len(dispatch.Call.Args)-1]
+		var ros []string
+		e.walkLocal(role, bw, 0, func(in ssa.Instruction, ctx []callCtx) {
+			if in == ssa.Instruction(dispatch) {
+				ros = e.originsCtx(reqArg, ctx)
+			}
+		})
+		for _, o := range ros {
+			okO := strings.HasSuffix(o, "Input.RequestItems") && (strings.HasPrefix(o, "rangeval-of rangeval-of ") || strings.HasPrefix(o, "elem-of rangeval-of "))
+			if !okO && reorder == "" {
+				reorder = "the dispatched request comes from " + o + ", not from the request's own list"
+			}
+		}
+		// an element access must use the loop's own ascending induction variable
+		if u, isU := strip(reqArg).(*ssa.UnOp); isU && reorder == "" {
+			if ia, isIA := u.X.(*ssa.IndexAddr); isIA && !ascendingInduction(ia.Index) {
+				reorder = "the element of the request list is selected by " + ia.Index.String() + ", not by the loop's ascending position"
+			}
+		}
+		if len(ros) == 0 && reorder == "" {
+			reorder = "the origin of the dispatched request could not be traced"
+		}
+		e.check(reorder == "", "R2", construct+":order-preserved", e.pos(bw.Pos()), "the requests of a table are executed in the order given (%s) – a put and a delete of the same key must take effect in sequence", reorder)
 	}
 }
 
@@ -396,6 +422,12 @@ func c19R4(e *Engine) {
 	if nUn == 0 || nResp == 0 {
 		bad = fmt.Sprintf("could not find the two accumulations (unprocessed:%d responses:%d)", nUn, nResp)
 	}
+	// every key of a table is dispatched: the key loop is left only by exhaustion (or by returning an error)
+	if _, why := e.visitsEveryElement(helperCall, nil); why != "" {
+		e.fail("R4", "v2.Client.BatchGetItem:every-key-dispatched", e.ipos(helperCall), "%s: the keys after that point are neither looked up nor – individually – reported, so stored items requested after it are missing from the response", why)
+	} else {
+		e.pass("R4", "v2.Client.BatchGetItem:every-key-dispatched", e.ipos(helperCall), "the loops around the per-key dispatch end by exhaustion only")
+	}
 	e.check(bad == "", "R4", "v2.Client.BatchGetItem:unprocessed-only-on-error", e.ipos(helperCall), "keys become unprocessed only on the error edge, items are returned only on the success edge %s", bad)
 	// (d) per-table accumulators: what is stored under a table's name is allocated for that table (inside the table loop)
 	// the dispatch as seen from BatchGetItem: the call itself, or the call of the helper that contains it
@@ -501,4 +533,39 @@ func sdkStruct(t types.Type, name string, e *Engine) *types.Struct {
 		}
 	}
 	return nil
+}
+
+// ascendingInduction: v is the position of a loop that visits 0, 1, 2, …: a phi starting at 0 stepped by +1, or the
+// `phi + 1` of go/ssa's range lowering (phi starting at -1).
+func ascendingInduction(v ssa.Value) bool {
+	var phi *ssa.Phi
+	start := int64(0)
+	switch x := v.(type) {
+	case *ssa.Phi:
+		phi = x
+	case *ssa.BinOp:
+		if n, ok := constInt(x.Y); x.Op == token.ADD && ok && n == 1 {
+			phi, _ = x.X.(*ssa.Phi)
+			start = -1
+		}
+	}
+	if phi == nil {
+		return false
+	}
+	okStart, okStep := false, false
+	for _, ed := range phi.Edges {
+		if n, isC := constInt(ed); isC {
+			okStart = n == start
+			continue
+		}
+		add, ok := ed.(*ssa.BinOp)
+		if !ok || add.Op != token.ADD || add.X != ssa.Value(phi) {
+			return false
+		}
+		if n, isC := constInt(add.Y); !isC || n != 1 {
+			return false
+		}
+		okStep = true
+	}
+	return okStart && okStep
 }
